@@ -398,7 +398,11 @@ func (ss *Package) messageProperties(parent RootSchema, src protoreflect.Message
 				nameInParent: "[]",
 			}
 
-			childExt := protoFieldExtensions{}
+			// list rules are declared for the items: there is no list
+			// constraint for the array as a whole
+			childExt := protoFieldExtensions{
+				list: ext.list,
+			}
 
 			repeatedValidate := ext.validate.GetRepeated()
 			if repeatedValidate != nil {
